@@ -862,3 +862,89 @@ func (m *Model) RunErrNode(s *Sink, rule string) {
 	s.RequireMin(rule, 20, "about 30 error sites in the evaluator")
 	_ = n
 }
+
+// RunFreshNodes — R-ERRLINE (fresh nodes): every node a parse function returns was built for this use: an allocation of
+// its own, the result of another parse function, an operand handed in, or nil — never a node the parser keeps (looked
+// up in a table of its own, loaded from one of its fields). A node shared between two uses of a name carries the token
+// of the first use: an error about the second is reported on the first one's line.
+func (m *Model) RunFreshNodes(s *Sink, rule string) {
+	isAstT := func(t types.Type) bool {
+		if pn := ptrNamed(t); pn != nil && pn.Obj().Pkg() != nil && shortPkg(pn.Obj().Pkg().Path()) == "ast" {
+			return true
+		}
+		if n, ok := t.(*types.Named); ok && n.Obj().Pkg() != nil && shortPkg(n.Obj().Pkg().Path()) == "ast" {
+			_, isI := n.Underlying().(*types.Interface)
+			return isI
+		}
+		return false
+	}
+	n := 0
+	for _, fn := range m.ModFns {
+		if fn.Blocks == nil || shortPkg(fnPkgPath(fn)) != "parser" {
+			continue
+		}
+		res := fn.Signature.Results()
+		if res.Len() != 1 || !isAstT(res.At(0).Type()) {
+			continue
+		}
+		n++
+		bad := ""
+		seen := map[ssa.Value]bool{}
+		var walk func(v ssa.Value, d int)
+		walk = func(v ssa.Value, d int) {
+			if v == nil || seen[v] || d > 10 || bad != "" {
+				return
+			}
+			seen[v] = true
+			switch x := v.(type) {
+			case *ssa.MakeInterface:
+				walk(x.X, d+1)
+			case *ssa.ChangeInterface:
+				walk(x.X, d+1)
+			case *ssa.TypeAssert:
+				walk(x.X, d+1)
+			case *ssa.Extract:
+				walk(x.Tuple, d+1)
+			case *ssa.Phi:
+				for _, e := range x.Edges {
+					walk(e, d+1)
+				}
+			case *ssa.Lookup:
+				if _, p, ok := pathOf(x.X); ok && p != "" {
+					if root, _, _ := pathOf(x.X); root != nil && strings.HasSuffix(root.Type().String(), "parser.Parser") {
+						bad = fmt.Sprintf("a node looked up in the parser's own table `p%s` at %s", p, m.InstrPos(x))
+					}
+				}
+			case *ssa.UnOp:
+				if x.Op != token.MUL {
+					return
+				}
+				if al, isAl := x.X.(*ssa.Alloc); isAl {
+					for _, r := range *al.Referrers() {
+						if st, isSt := r.(*ssa.Store); isSt && st.Addr == ssa.Value(al) {
+							walk(st.Val, d+1)
+						}
+					}
+					return
+				}
+				if root, p, ok := pathOf(x); ok && root != nil && strings.HasSuffix(root.Type().String(), "parser.Parser") {
+					bad = fmt.Sprintf("a node loaded from the parser's field `p%s` at %s", p, m.InstrPos(x))
+				}
+			}
+		}
+		for _, b := range fn.Blocks {
+			if ret, ok := b.Instrs[len(b.Instrs)-1].(*ssa.Return); ok && len(ret.Results) == 1 {
+				walk(ret.Results[0], 0)
+			}
+		}
+		key := fnKey(fn) + "|returns a node built for this use"
+		if bad != "" {
+			s.Violation(rule, key, m.Pos(fn.Pos()), "%s can return %s: a node shared between several places of the template carries the token (and so the line) of the first one — an error about a later use names the wrong line", fnKey(fn), bad)
+		} else {
+			s.OK(rule, key, m.Pos(fn.Pos()), "every returned node is allocated here, comes from another parse function, is an operand handed in, or is nil")
+		}
+	}
+	if n < 20 {
+		s.Undecided(rule, "parser|parse functions", "-", "only %d parse functions with an AST result found", n)
+	}
+}
